@@ -40,8 +40,12 @@ pub const CL_VALUES: [&str; 14] = [
     "0", "1", "5", "007", "+5", "4294967295", "4294967296", "-1", "", "abc", "5 5", "12", "-0",
     "\u{ff11}",
 ];
-pub const MEDIA_VALUES: [&str; 7] =
-    ["text/plain", "application/json", "text/html", "", "TEXT/PLAIN", "application/json2", "*/*"];
+pub const MEDIA_VALUES: [&str; 14] = [
+    "text/plain", "application/json", "text/html", "", "TEXT/PLAIN", "application/json2", "*/*",
+    // media RANGES with parameters and lists: not supported spellings, whatever they would mean elsewhere
+    "application/json, text/plain;q=0.9", "text/plain;q=nan, application/json", "text/plain; charset=utf-8",
+    "application/json;q=0", "*/*;q=0.8, text/plain", "text/plain;q=NaN,text/plain;q=-nan,application/json;q=inf", "application/json,",
+];
 pub const TE_VALUES: [&str; 6] = ["chunked", "identity", "gzip", "Chunked", "", "chunked, gzip"];
 pub const EXPECT_VALUES: [&str; 5] = ["100-continue", "100-Continue", "103-checkpoint", "", "100-continue "];
 pub const AE_VALUES: [&str; 14] = [
@@ -290,7 +294,7 @@ pub fn valid_request(rng: &mut Rng, o: &ReqOpts) -> ReqPlan {
 }
 
 /// Names of the single-point corruptions of C02's quantifier.
-pub const CORRUPTIONS: [&str; 22] = [
+pub const CORRUPTIONS: [&str; 23] = [
     "method-wrong",
     "method-empty",
     "method-lower",
@@ -304,6 +308,7 @@ pub const CORRUPTIONS: [&str; 22] = [
     "version-lower",
     "version-trailing-sp",
     "stray-cr",
+    "cr-before-crlf",
     "stray-lf",
     "header-no-colon",
     "header-nonutf8",
@@ -385,6 +390,15 @@ pub fn corrupt(rng: &mut Rng, plan: &ReqPlan, which: &str) -> Vec<u8> {
             let head = plan.head_len().min(b.len());
             let pos = rng.below(head + 1);
             b.insert(pos, b'\r');
+        }
+        "cr-before-crlf" => {
+            // a bare CR as the last byte of a line: the stream contains CR CR LF, and the line ends at the SECOND CR
+            let head = plan.head_len().min(b.len());
+            let ends: Vec<usize> = (0..head.saturating_sub(1)).filter(|&i| b[i] == b'\r' && b[i + 1] == b'\n').collect();
+            if !ends.is_empty() {
+                let at = *rng.pick(&ends);
+                b.insert(at, b'\r');
+            }
         }
         "stray-lf" => {
             let head = plan.head_len().min(b.len());
